@@ -494,8 +494,9 @@ def r02_7(ctx) -> None:
                     continue
                 if norm(t.ast) == coll and not can_reach_exit(cfg, succ_by_label(cfg, t, "false")) and cfg.must_pass(cfg.entry, pop_node, [t]):
                     empty_ok = True
-                if isinstance(t.ast, ast.Compare) and norm(t.ast.left) == f"len({coll})" and len(t.ast.ops) == 1:
-                    op, c = t.ast.ops[0], const_value(t.ast.comparators[0])
+                cmpx = _len_vs_const(t.ast, f"len({coll})")
+                if cmpx is not None:
+                    op, c = cmpx
                     if (isinstance(op, ast.Gt) and c == 1) or (isinstance(op, ast.GtE) and c == 2) or (isinstance(op, ast.NotEq) and c == 1):
                         if not can_reach_exit(cfg, succ_by_label(cfg, t, "true")) and cfg.must_pass(cfg.entry, pop_node, [t]):
                             multi_ok = True
@@ -526,6 +527,11 @@ def r02_7(ctx) -> None:
                   "JWERegistry.__init__ :: stores the flag", "verify_all_recipients is not stored as given", "self.verify_all_recipients = verify_all_recipients",
                   construct="verify_all_recipients store")
     ctx.count("R02.7", n, 5, "CEK selection obligations")
+
+
+def _len_vs_const(e, txt):
+    from .common import len_vs_const
+    return len_vs_const(e, lambda x: x == txt)
 
 
 def _keep_first_idiom(ctx, eng, fn, cfg, var: str, dn) -> bool:
